@@ -18,8 +18,9 @@ from __future__ import annotations
 import itertools, random
 from ..core import Check, MachineryFailure
 from .. import tlc, graph
-from ..impl_split import (torch, KINDS, NO_ZERO_RATE, CLAMP_KINDS, HOMEO_KINDS, REDS, Run, histories, site_of,
-                          B, NI, NO, MAG1, MAG2, SIG_SCALAR, SIG_TENSOR, SCALE, TAU)
+from ..impl_split import (torch, KINDS, NO_ZERO_RATE, CLAMP_KINDS, HOMEO_KINDS, REDS, Run, MultiRun, HP, histories,
+                          random_history, call_kwargs, site_of, B, NI, NO, MAG1, MAG2, SIG_SCALAR, SIG_TENSOR, SCALE, TAU,
+                          HOMEO_TARGET)
 
 PID = "C09"
 EN = 2
@@ -27,19 +28,33 @@ RTOL, ATOL = 1e-5, 1e-6
 CLASSES = (-1, 0, 1)
 LT_KINDS = {"DelayAdjustedSTDPD", "DelayAdjustedMSTDPD"}          # Hebbian is (eta_- < 0, eta_+ > 0)
 DELAY_PARAM_KINDS = {"DelayAdjustedSTDPD", "DelayAdjustedMSTDPD", "DelayAdjustedKernelSTDPD", "HomeoDelay"}
-MC_INVARIANTS = ["Split", "Direction", "Accumulated"]
+MC_INVARIANTS = ["Split", "CellsIndependent", "Direction", "Accumulated"]
+INHERIT = 2
+ALLC, SIGNC, ONLY_INHERIT = {0, 1, 2}, {0, 2}, {3}      # sign classes / Inherit as passed in cfg files (class + 1)
 
 
 # ------------------------------------------------------------------ T: model checking + tables
 def model_check(chk: Check, tier: str):
     kinds = set(KINDS)
-    runs = [("all-kinds-1call", dict(KindSet=kinds, B=2, EN=EN, MaxCalls=1)),
-            ("match-kinds-2calls", dict(KindSet=kinds - CLAMP_KINDS - HOMEO_KINDS, B=2, EN=EN, MaxCalls=2)),
-            ("homeo-2calls", dict(KindSet=kinds & HOMEO_KINDS, B=2, EN=EN, MaxCalls=2))]
+    match = kinds - CLAMP_KINDS - HOMEO_KINDS
+    one = dict(NC=1, DfClassesO=ALLC, OvClassesO=ONLY_INHERIT)
+    runs = [("all-kinds-1cell", dict(KindSet=kinds, B=2, EN=EN, MaxCalls=1, **one)),
+            ("match-kinds-2calls", dict(KindSet=match, B=2, EN=EN, MaxCalls=2, **one)),
+            ("homeo-2calls", dict(KindSet=kinds & HOMEO_KINDS, B=2, EN=EN, MaxCalls=2, **one)),
+            # per-cell overrides of every sign class / inheritance, one cell
+            ("overrides-1cell", dict(KindSet=kinds, B=2, EN=1, MaxCalls=1, NC=1, DfClassesO=ALLC,
+                                     OvClassesO={0, 1, 2, 3})),
+            # two cells on one trainer: no leak between the iterations of forward()
+            ("two-cells", dict(KindSet=kinds, B=2, EN=1, MaxCalls=1, NC=2, DfClassesO=SIGNC, OvClassesO={0, 2, 3}))]
     if tier == "thorough":
-        runs += [("match-kinds-B3-2calls", dict(KindSet=kinds - CLAMP_KINDS - HOMEO_KINDS, B=3, EN=EN, MaxCalls=2)),
-                 ("clamp-EN3", dict(KindSet=kinds & (CLAMP_KINDS | HOMEO_KINDS), B=2, EN=3, MaxCalls=1)),
-                 ("clamp-2calls", dict(KindSet={"KernelSTDP"}, B=2, EN=2, MaxCalls=2))]
+        runs += [("match-kinds-B3-2calls", dict(KindSet=match, B=3, EN=EN, MaxCalls=2, **one)),
+                 ("clamp-EN3", dict(KindSet=kinds & (CLAMP_KINDS | HOMEO_KINDS), B=2, EN=3, MaxCalls=1, **one)),
+                 ("clamp-2calls", dict(KindSet={"KernelSTDP"}, B=2, EN=2, MaxCalls=2, **one)),
+                 ("three-cells", dict(KindSet={"STDP", "MSTDP", "DelayAdjustedMSTDPD", "HomeoWeight", "HomeoDelay",
+                                               "KernelSTDP"}, B=2, EN=1, MaxCalls=1, NC=3, DfClassesO=SIGNC,
+                                      OvClassesO={0, 3})),
+                 ("two-cells-2calls", dict(KindSet={"STDP", "MSTDP", "HomeoBias"}, B=2, EN=1, MaxCalls=2, NC=2,
+                                           DfClassesO=SIGNC, OvClassesO={0, 2, 3}))]
     for name, c in runs:
         cfg = tlc.cfg_text(constants=c, invariants=MC_INVARIANTS)
         res = tlc.run("SplitMC", cfg, workers=4, timeout=3000)
@@ -54,8 +69,10 @@ def model_check(chk: Check, tier: str):
 
 
 def routing_tables(chk: Check):
-    """(kind, r1, r2) -> {canon(call): {"res": routing, "rule": signed rule}} as printed by TLC."""
-    cfg = tlc.cfg_text(constants=dict(KindSet=set(KINDS), B=B, EN=EN, MaxCalls=1), invariants=["Emit"])
+    """(kind, d1, d2, o1, o2) -> {canon(call): what a cell with overrides (o1, o2) on a trainer
+    with defaults (d1, d2) receives: {"res", "rule", "sx", "tg"}} as printed by TLC."""
+    cfg = tlc.cfg_text(constants=dict(KindSet=set(KINDS), B=B, EN=EN, MaxCalls=0, NC=1, DfClassesO=ALLC,
+                                      OvClassesO={0, 1, 2, 3}), invariants=["Emit"])
     res = tlc.run("SplitMC", cfg, workers=1, timeout=3000)
     if not res.ok:
         raise MachineryFailure(f"TLC generation run failed: {res.out[-2000:]}")
@@ -63,7 +80,11 @@ def routing_tables(chk: Check):
     for rec in res.printed():
         if isinstance(rec, dict) and "s" in rec and "out" in rec:
             s = rec["s"]
-            tables[(s["k"], s["r1"], s["r2"])] = {graph.canon(o["op"]): o for o in rec["out"]}
+            cell = s["cells"][0]
+            tables[(s["k"], s["df"]["r1"], s["df"]["r2"], cell["o1"], cell["o2"])] = {
+                graph.canon(o["op"]): {"res": o["cells"][0]["res"], "sx": o["cells"][0]["sx"],
+                                       "tg": o["cells"][0]["tg"], "rule": o["rules"][0]} for o in rec["out"]}
+    res.out = ""
     chk.add_tlc("gen:routing-tables", res)
     if not tables:
         raise MachineryFailure("TLC printed no routing table")
@@ -72,11 +93,22 @@ def routing_tables(chk: Check):
     return tables
 
 
-def lookup(tables, kind, r1, r2, call):
+def lookup_cell(tables, kind, d, o, call):
+    """Routing of `call` for a cell registered with overrides o = (o1, o2) (a sign class or
+    INHERIT) on a trainer whose constructor defaults have the sign classes d = (d1, d2)."""
+    if kind in HOMEO_KINDS:
+        d, o = (d[0], 0), (o[0], INHERIT)
     try:
-        return tables[(kind, r1, r2)][graph.canon(call)]
+        return tables[(kind, d[0], d[1], o[0], o[1])][graph.canon(call)]
     except KeyError:
-        raise MachineryFailure(f"no routing entry for {(kind, r1, r2)} {call}")
+        raise MachineryFailure(f"no routing entry for {(kind, d, o)} {call}")
+
+
+def lookup(tables, kind, r1, r2, call):
+    """A single cell that inherits the constructor's hyperparameters."""
+    if kind in HOMEO_KINDS and "tg" not in call:
+        call = dict(call, tg="call")
+    return lookup_cell(tables, kind, (r1, r2), (INHERIT, INHERIT), call)
 
 
 # ------------------------------------------------------------------ numeric helpers
@@ -123,14 +155,19 @@ class Judge:
         self.chk, self.kind, self.cfg, self.red, self.shape = chk, kind, cfg, red, shape
         self.site = site_of(kind)
 
+    extra: dict = {}
+    context: dict = {}
+
     def sig(self, clause, form, **kw):
         s = {"clause": clause, "site": self.site, "kind": self.kind, "form": form}
+        s.update(self.extra)
         s.update(kw)
         return s
 
     def rep(self, call, step, hist, **kw):
         r = {"kind": self.kind, "rates": {"r1": self.cfg[0], "r2": self.cfg[1]}, "reduction": self.red,
              "history": hist, "step": step, "call": call}
+        r.update(self.context)
         r.update({k: (v.tolist() if isinstance(v, torch.Tensor) else v) for k, v in kw.items()})
         return r
 
@@ -138,8 +175,17 @@ class Judge:
         """neg_negated: what the depressing part would be had its magnitudes been handed over
         negated (before the batch reduction); default: minus the specified part."""
         form = call["form"]
-        P, N = full(pos, self.shape), full(neg, self.shape)
         EP, EN_ = full(exp_pos, self.shape), full(exp_neg, self.shape)
+        try:
+            P, N = full(pos, self.shape), full(neg, self.shape)
+        except RuntimeError:
+            # a part that does not even broadcast to the parameter it is meant for
+            self.chk.evaluations += 1
+            self.chk.violation(self.sig("part-shape", form),
+                               self.rep(call, step, hist, parameter_shape=list(self.shape),
+                                        pos_shape=None if pos is None else list(pos.shape),
+                                        neg_shape=None if neg is None else list(neg.shape)))
+            return EP, EN_
         NN = -EN_ if neg_negated is None else full(neg_negated, self.shape)
         self.chk.evaluations += 1
         if bool((EP.abs() > ATOL).any() or (EN_.abs() > ATOL).any()):
@@ -239,19 +285,106 @@ def anchor_value(kind, hname, red, shape):
 
 
 # ------------------------------------------------------------------ A: the trainers
+def calls_of(kind, cfg):
+    """The call variants issued at every step for a cell whose effective sign classes are cfg."""
+    factors = KINDS[kind][2]
+    if factors == 3:
+        return [{"form": "scalar", "s": c} for c in CLASSES] + \
+               [{"form": "tensor", "sv": list(v)} for v in itertools.product(CLASSES, repeat=B)]
+    if kind in CLAMP_KINDS:
+        return [{"form": "elems", "v1": [cfg[0]] * EN, "v2": [cfg[1]] * EN}]
+    return [{"form": "none"}]
+
+
+class Refs:
+    """Reference runs that measure the term magnitudes for ONE cell configuration: the same
+    trainer kind, constructed with the cell's effective magnitudes / time constants / trace mode /
+    reduction, under the documented Hebbian signs and their opposite, on the same connection
+    kind and the same spike history.  M[t]: magnitude of term t; MS[(t, side)]: its magnitude
+    when routed to `side` (the kernel rules reduce the clamped values before negating them, so
+    under a non-additive reduction a term has a different reduced magnitude on either side);
+    T[(t, b)]: per-sample magnitude for a unit reward (three-factor rules, reduction sum)."""
+
+    def __init__(self, tables, kind, hp: HP, conn="dense"):
+        self.tables, self.kind, self.hp = tables, kind, hp
+        self.factors = KINDS[kind][2]
+        self.clamp = kind in CLAMP_KINDS
+        self.heb = hebbian(kind)
+        self.anti = (-self.heb[0], -self.heb[1])
+        self.ref = Run(kind, self.heb[0], self.heb[1], hp.red, hp=hp, conn=conn)
+        self.ref_anti = Run(kind, self.anti[0], self.anti[1], hp.red, hp=hp, conn=conn)
+        self.ref_sum = Run(kind, self.heb[0], self.heb[1], "sum", hp=hp, conn=conn) if self.factors == 3 else None
+        self.shape = tuple(self.ref.param_value().shape)
+        if self.factors == 3:
+            self.base = self.base_anti = {"form": "scalar", "s": 1}
+        elif self.clamp:
+            self.base = {"form": "elems", "v1": [self.heb[0]] * EN, "v2": [self.heb[1]] * EN}
+            self.base_anti = {"form": "elems", "v1": [self.anti[0]] * EN, "v2": [self.anti[1]] * EN}
+        else:
+            self.base = self.base_anti = {"form": "none"}
+        self.idx = 1 if self.clamp else 0
+
+    def side(self, cfg, call, t, index):
+        return term_part(self.tables, self.kind, cfg, call, t, index)
+
+    def step(self, pre, post):
+        shape = self.shape
+        self.ref.step(pre, post)
+        self.ref_anti.step(pre, post)
+        rp, rn = self.ref.parts(self.base)
+        got = {"pos": full(rp, shape), "neg": full(rn, shape)}
+        ap, an = self.ref_anti.parts(self.base_anti)
+        got_anti = {"pos": full(ap, shape), "neg": full(an, shape)}
+        self.M = {t: got[self.side(self.heb, self.base, t, self.idx)] for t in ("T1", "T2")}
+        self.MS = {}
+        for t in ("T1", "T2"):
+            self.MS[(t, self.side(self.heb, self.base, t, self.idx))] = self.M[t]
+            sd = self.side(self.anti, self.base_anti, t, self.idx)
+            self.MS[(t, sd)] = got_anti[sd]
+        self.T = {}
+        if self.ref_sum:
+            self.ref_sum.step(pre, post)
+            for b in range(B):
+                sv = [1 if j == b else 0 for j in range(B)]
+                op, on = self.ref_sum.parts({"form": "onehot", "b": b})
+                g = {"pos": full(op, shape), "neg": full(on, shape)}
+                for t in ("T1", "T2"):
+                    self.T[(t, b + 1)] = g[self.side(self.heb, {"form": "tensor", "sv": sv}, t, b + 1)]
+
+    def expected(self, ent, call, cfg):
+        """The specified parts of `call` for a cell with effective sign classes cfg, evaluated
+        with the measured magnitudes through the actual batch reduction; and the signed rule
+        where the reduction commutes with the split."""
+        res, rule, sx = ent["res"], ent["rule"], ent["sx"]
+        f, red, shape = REDS[self.hp.red], self.hp.red, self.shape
+        zr = {"T1": float(cfg[0] != 0), "T2": float(cfg[1] != 0)}
+        M, MS, T = self.M, self.MS, self.T
+        if call["form"] == "tensor":      # |reward_b * scale|: the scale enters sx times
+            tokf = lambda side: (lambda t, i: T[(t, i)] * (abs(call["sv"][i - 1]) * SIG_TENSOR[i - 1]
+                                                          * SCALE ** sx * zr[t]))
+        elif call["form"] == "scalar":    # the references were measured with |reward * scale| (once)
+            tokf = lambda side: (lambda t, i: MS[(t, side)] * (abs(call["s"]) * SCALE ** (sx - 1) * zr[t]))
+        elif self.clamp:
+            tokf = lambda side: (lambda t, i: MS[(t, side)] * zr[t] if i == 1 else torch.zeros(shape))
+        else:
+            tokf = lambda side: (lambda t, i: MS[(t, side)] * zr[t])
+        exp_pos = eval_part(res["pos"], res["comb"], tokf("pos"), f)
+        exp_neg = eval_part(res["neg"], res["comb"], tokf("neg"), f)
+        # netting is only demanded where the reduction commutes with the split
+        linear = (red == "sum") or (res["comb"] == "add") or (res["comb"] == "clamp" and red == "mean")
+        signed = eval_rule(rule, tokf("pos")) if linear else None
+        return exp_pos, exp_neg, signed
+
+
 def check_match_kind(chk, tables, kind, red, hists, cfgs, do_bounds):
     """Two- and three-factor rules routed by match statements, and the kernel rules with the
-    shipped exponential kernels (every entry of a term has the sign of its learning rate)."""
+    shipped exponential kernels (every entry of a term has the sign of its learning rate):
+    one cell per trainer, hyperparameters given to the constructor."""
     cls, param, factors, _, _ = KINDS[kind]
-    f = REDS[red]
     heb = hebbian(kind)
-    clamp = kind in CLAMP_KINDS
-    anti = (-heb[0], -heb[1])
     for hname, hist in hists:
-        ref = Run(kind, heb[0], heb[1], red)
-        ref_anti = Run(kind, anti[0], anti[1], red)
-        ref_sum = Run(kind, heb[0], heb[1], "sum") if factors == 3 else None
-        shape = tuple(ref.param_value().shape)
+        refs = Refs(tables, kind, HP(heb[0], heb[1], red))
+        shape, base = refs.shape, refs.base
         runs = {}
         for cfg in cfgs:
             try:
@@ -265,46 +398,12 @@ def check_match_kind(chk, tables, kind, red, hists, cfgs, do_bounds):
         nets = {cfg: [] for cfg in runs}
         chk.traces += len(runs)
         for step, (pre, post) in enumerate(hist):
-            ref.step(pre, post)
-            ref_anti.step(pre, post)
-            if ref_sum:
-                ref_sum.step(pre, post)
-            # ---- term magnitudes from the reference runs: M[t] under the Hebbian signs, and
-            # MS[(t, side)] = the magnitude of term t when it is routed to `side` (the kernel rules
-            # reduce the clamped values before negating them, so under a non-additive reduction the
-            # same term has a different reduced magnitude on either side)
-            if factors == 3:
-                base = {"form": "scalar", "s": 1}
-                base_anti = base
-            elif clamp:
-                base = {"form": "elems", "v1": [heb[0]] * EN, "v2": [heb[1]] * EN}
-                base_anti = {"form": "elems", "v1": [anti[0]] * EN, "v2": [anti[1]] * EN}
-            else:
-                base = {"form": "none"}
-                base_anti = base
-            rp, rn = ref.parts(base)
-            got = {"pos": full(rp, shape), "neg": full(rn, shape)}
-            ap, an = ref_anti.parts(base_anti)
-            got_anti = {"pos": full(ap, shape), "neg": full(an, shape)}
-            idx = 1 if clamp else 0
-            M = {t: got[term_part(tables, kind, heb, base, t, idx)] for t in ("T1", "T2")}
-            MS = {}
-            for t in ("T1", "T2"):
-                MS[(t, term_part(tables, kind, heb, base, t, idx))] = M[t]
-                MS[(t, term_part(tables, kind, anti, base_anti, t, idx))] = \
-                    got_anti[term_part(tables, kind, anti, base_anti, t, idx)]
-            T = {}
-            if factors == 3:
-                for b in range(B):
-                    sv = [1 if j == b else 0 for j in range(B)]
-                    op, on = ref_sum.parts({"form": "onehot", "b": b})
-                    g = {"pos": full(op, shape), "neg": full(on, shape)}
-                    for t in ("T1", "T2"):
-                        T[(t, b + 1)] = g[term_part(tables, kind, heb, {"form": "tensor", "sv": sv}, t, b + 1)]
+            refs.step(pre, post)
+            M = refs.M
             # the reference itself must be a split of non-negative magnitudes
             for t in ("T1", "T2"):
                 if bool((M[t] < -ATOL).any()):
-                    chk.violation({"clause": "pos-part-sign" if term_part(tables, kind, heb, base, t, idx) == "pos"
+                    chk.violation({"clause": "pos-part-sign" if refs.side(heb, base, t, refs.idx) == "pos"
                                    else "neg-part-sign", "site": site_of(kind), "kind": kind, "form": base["form"],
                                    "where": "reference-hebbian"},
                                   {"kind": kind, "history": hname, "step": step, "term": t, "value": M[t].tolist()})
@@ -329,36 +428,14 @@ def check_match_kind(chk, tables, kind, red, hists, cfgs, do_bounds):
             for cfg, run in runs.items():
                 run.step(pre, post)
                 judge = Judge(chk, kind, cfg, red, shape)
-                zr = {"T1": float(cfg[0] != 0), "T2": float(cfg[1] != 0)}
-                if factors == 3:
-                    calls = [{"form": "scalar", "s": c} for c in CLASSES] + \
-                            [{"form": "tensor", "sv": list(v)} for v in itertools.product(CLASSES, repeat=B)]
-                elif clamp:
-                    calls = [{"form": "elems", "v1": [cfg[0]] * EN, "v2": [cfg[1]] * EN}]
-                else:
-                    calls = [{"form": "none"}]
                 step_net = {}
-                for call in calls:
+                for call in calls_of(kind, cfg):
                     ent = lookup(tables, kind, cfg[0], cfg[1], call)
-                    res, rule = ent["res"], ent["rule"]
-                    if call["form"] == "tensor":
-                        tokf = lambda side: (lambda t, i: T[(t, i)] * (abs(call["sv"][i - 1]) * SIG_TENSOR[i - 1]
-                                                                      * SCALE * zr[t]))
-                    elif call["form"] == "scalar":
-                        tokf = lambda side: (lambda t, i: MS[(t, side)] * (abs(call["s"]) * zr[t]))
-                    elif clamp:
-                        tokf = lambda side: (lambda t, i: MS[(t, side)] * zr[t] if i == 1 else torch.zeros(shape))
-                    else:
-                        tokf = lambda side: (lambda t, i: MS[(t, side)] * zr[t])
-                    exp_pos = eval_part(res["pos"], res["comb"], tokf("pos"), f)
-                    exp_neg = eval_part(res["neg"], res["comb"], tokf("neg"), f)
-                    # netting is only demanded where the reduction commutes with the split
-                    linear = (red == "sum") or (res["comb"] == "add") or (res["comb"] == "clamp" and red == "mean")
-                    signed = eval_rule(rule, tokf("pos")) if linear else None
+                    exp_pos, exp_neg, signed = refs.expected(ent, call, cfg)
                     pos, neg = run.parts(call)
                     P, N = judge.judge(call, step, hname, pos, neg, exp_pos, exp_neg, signed)
                     step_net[graph.canon(call)] = P - N
-                    if res["posNone"] and pos is not None and bool((P.abs() > ATOL).any()):
+                    if ent["res"]["posNone"] and pos is not None and bool((P.abs() > ATOL).any()):
                         chk.violation(judge.sig("pos-part-value", call["form"], where="specified-empty"),
                                       judge.rep(call, step, hname, observed_pos=P))
                 # a negative reward flips the direction
@@ -377,10 +454,119 @@ def check_match_kind(chk, tables, kind, red, hists, cfgs, do_bounds):
         if do_bounds:
             for cfg, run in runs.items():
                 call = ({"form": "scalar", "s": -1} if factors == 3 else
-                        {"form": "elems", "v1": [cfg[0]] * EN, "v2": [cfg[1]] * EN} if clamp else {"form": "none"})
+                        {"form": "elems", "v1": [cfg[0]] * EN, "v2": [cfg[1]] * EN} if kind in CLAMP_KINDS
+                        else {"form": "none"})
                 Judge(chk, kind, cfg, red, shape).bounds(run, call, hname)
         chk.sample({"kind": "trainer-run", "trainer": kind, "history": hname, "reduction": red,
                     "configs": [list(c) for c in runs], "steps": len(hist)})
+
+
+OVERRIDE_KEYS = {
+    # which register_cell keywords carry the two rates (overriding only these leaves the time
+    # constants, trace mode and reduction to the trainer's defaults)
+    "STDP": ("lr_post", "lr_pre"), "StableSTDP": ("lr_post", "lr_pre"),
+    "TripletSTDP": ("lr_post_pair", "lr_pre_pair"), "StableTripletSTDP": ("lr_post_pair", "lr_pre_pair"),
+    "MSTDP": ("lr_post", "lr_pre"), "MSTDPET": ("lr_post", "lr_pre"),
+    "DelayAdjustedSTDP": ("lr_pos", "lr_neg"), "DelayAdjustedSTDPD": ("lr_neg", "lr_pos"),
+    "DelayAdjustedMSTDP": ("lr_pos", "lr_neg"), "DelayAdjustedMSTDPD": ("lr_neg", "lr_pos"),
+    "KernelSTDP": ("kernel_post_kwargs", "kernel_pre_kwargs"),
+    "DelayAdjustedKernelSTDP": ("kernel_post_kwargs", "kernel_pre_kwargs"),
+    "DelayAdjustedKernelSTDPD": ("kernel_post_kwargs", "kernel_pre_kwargs"),
+}
+CONNS = ["dense", "dense23", "direct", "lateral"]
+
+
+ZERO_RATE_OK = {"StableSTDP", "DelayAdjustedSTDP", "DelayAdjustedSTDPD", "DelayAdjustedMSTDP", "DelayAdjustedMSTDPD",
+                "KernelSTDP", "DelayAdjustedKernelSTDP", "DelayAdjustedKernelSTDPD"}
+
+
+def _pick_classes(rng, kind):
+    cs = [-1, 1, 1, -1, 0] if kind in ZERO_RATE_OK else [-1, 1]
+    return rng.choice(cs), rng.choice(cs)
+
+
+def check_multi(chk, tables, kind, rng, steps, ncells, red_default="sum"):
+    """ONE trainer, several cells: constructor defaults with one sign combination, every cell
+    registered with its own keyword overrides (other signs, magnitudes, time constants, trace
+    mode, reduction - or only some of them, the rest inherited), its own connection kind and its
+    own spike history.  Every cell's parts are compared with the routing TLC printed for ITS OWN
+    configuration (trainer defaults d, cell overrides o), evaluated with magnitudes measured from
+    reference runs of that cell's effective hyperparameters; rewards are issued with scale != 1."""
+    factors = KINDS[kind][2]
+    modes = ["cumulative", "nearest"]
+    reds = ["sum", "mean", "amax"]
+    d = _pick_classes(rng, kind)
+    d = tuple(c if c != 0 else 1 for c in d) if kind in NO_ZERO_RATE else d
+    dflt = HP(d[0], d[1], red_default, mag1=rng.choice([0.25, 0.5]), mag2=rng.choice([0.5, 0.125]),
+              tc1=rng.choice([TAU, 2 * TAU]), tc2=rng.choice([TAU, 2 * TAU]), mode=rng.choice(modes))
+    cells, meta = [], []
+    for j in range(ncells):
+        # at least one cell overrides the signs; "rate1": only the first rate, the second inherited
+        style = rng.choice(["all", "rates", "rate1", "none"]) if j else "rates"
+        if style == "rate1" and kind in CLAMP_KINDS:
+            style = "rates"
+        conn = CONNS[(j + rng.randrange(len(CONNS))) % len(CONNS)]
+        if style == "none":
+            eff, keys, o = dflt, [], (INHERIT, INHERIT)
+        else:
+            c = _pick_classes(rng, kind)
+            if j == 0:      # a sign combination different from the constructor's
+                c = (-d[0] if d[0] else -1, c[1])
+            if style == "rate1":
+                c = (c[0], d[1])
+                eff = HP(c[0], d[1], dflt.red, mag1=rng.choice([0.25, 1.0]), mag2=dflt.mag2, tc1=dflt.tc1,
+                         tc2=dflt.tc2, mode=dflt.mode)
+                keys = OVERRIDE_KEYS[kind][:1]
+            elif style == "all":
+                eff = HP(c[0], c[1], rng.choice(reds), mag1=rng.choice([0.25, 0.5, 1.0]),
+                         mag2=rng.choice([0.125, 0.5]), tc1=rng.choice([TAU, 2 * TAU]), tc2=rng.choice([TAU, 2 * TAU]),
+                         mode=rng.choice(modes))
+                keys = None
+            else:
+                eff = HP(c[0], c[1], dflt.red, mag1=rng.choice([0.25, 1.0]), mag2=rng.choice([0.125, 0.5]),
+                         tc1=dflt.tc1, tc2=dflt.tc2, mode=dflt.mode)
+                keys = OVERRIDE_KEYS[kind]
+                if kind in CLAMP_KINDS:     # the kernel keyword dictionaries also carry the time constants
+                    eff = HP(c[0], c[1], dflt.red, mag1=eff.mag1, mag2=eff.mag2, tc1=rng.choice([TAU, 2 * TAU]),
+                             tc2=TAU, mode=dflt.mode)
+            o = (c[0], INHERIT) if style == "rate1" else c
+        cells.append((keys, eff, conn))
+        meta.append({"overrides": style, "o": list(o), "conn": conn, "effective": eff.describe()})
+    try:
+        multi = MultiRun(kind, dflt, cells)
+    except ValueError as ex:
+        if "nonzero" in str(ex):
+            return
+        raise
+    refs = [Refs(tables, kind, eff, conn) for _, eff, conn in cells]
+    hists = [random_history(rng, steps, conn) for _, _, conn in cells]
+    chk.traces += 1
+    for step in range(steps):
+        for j, cv in enumerate(multi.cells):
+            cv.step(*hists[j][step])
+            refs[j].step(*hists[j][step])
+        # every cell sees every call variant of the kind (the clamp kinds: the call of the first cell)
+        for call in calls_of(kind, (cells[0][1].r1, cells[0][1].r2)):
+            try:
+                got = multi.call(call)
+            except Exception as ex:      # each of these cells trains fine alone (the reference runs did)
+                chk.violation({"clause": "cells-isolated", "site": site_of(kind), "kind": kind, "cells": ncells,
+                               "raised": type(ex).__name__},
+                              {"kind": kind, "trainer_defaults": dflt.describe(), "cells": meta, "step": step,
+                               "call": call, "error": str(ex)[:500]})
+                return
+            for j, (pos, neg) in enumerate(got):
+                eff = cells[j][1]
+                cfg = (eff.r1, eff.r2)
+                o = tuple(meta[j]["o"])
+                ccall = call if kind not in CLAMP_KINDS else {"form": "elems", "v1": [cfg[0]] * EN, "v2": [cfg[1]] * EN}
+                ent = lookup_cell(tables, kind, d, o, ccall)
+                exp_pos, exp_neg, signed = refs[j].expected(ent, ccall, cfg)
+                judge = Judge(chk, kind, cfg, eff.red, refs[j].shape)
+                judge.extra = {"cells": ncells, "cell": j}
+                judge.context = {"trainer_defaults": dflt.describe(), "cells": meta}
+                judge.judge(ccall, step, "multi-cell", pos, neg, exp_pos, exp_neg, signed)
+    chk.sample({"kind": "multi-cell-run", "trainer": kind, "defaults": dflt.describe(), "cells": meta, "steps": steps})
 
 
 def check_probe_kernels(chk, tables, kind, red, rng, steps):
@@ -433,53 +619,119 @@ def check_probe_kernels(chk, tables, kind, red, rng, steps):
                 "V_post_sample0": V[0][0].squeeze(-1).tolist()})
 
 
-def check_homeostasis(chk, tables, kind, red, hists, do_bounds):
-    f = REDS[red]
+def homeo_judge(chk, tables, kind, d, o, cv, call, step, hname, judge):
+    """One homeostasis cell after trainer(call): the parts against the specified clamp split of
+    k = plasticity (target - rate) / target, with the target TLC says this cell must use (the
+    call's when given, else the cell's OWN default) and the cell's own plasticity."""
+    from ..impl_split import CALL_TARGET
     param = KINDS[kind][1]
+    hp = cv.hp
+    flat = param == "bias" or len(judge.shape) == 1     # one value per output (bias, direct connections)
+    f, red = REDS[hp.red], hp.red
+    place, tg = {}, None
+    for c in CLASSES:
+        ent = lookup_cell(tables, kind, d, o, {"form": "rates", "d": [c] * EN, "tg": call["tg"]})
+        res, tg = ent["res"], ent["tg"]
+        place[c] = "pos" if res["pos"] else "neg" if res["neg"] else "none"
+    t = CALL_TARGET if tg == "call" else hp.target
+    n_out = cv.psum.shape[1]
+    target = [[float(t)] * n_out] if isinstance(t, (int, float)) else t
+    k = cv.homeo_k(hp.r1, target)                       # (B, n_out), documented formula
+    dcls = torch.sign(torch.tensor(target) - cv.psum / cv.count)      # class of target - rate
+    exp = {}
+    for side in ("pos", "neg"):
+        mask = torch.zeros_like(k)
+        for c in CLASSES:
+            if place[c] == side:
+                mask = mask + (dcls == c).float()
+        red_ = f(k.abs() * mask, 0)            # (n_out,)
+        exp[side] = red_ if flat else red_.unsqueeze(-1)
+        if side == "neg":
+            alt = f(-(k.abs() * mask), 0)      # the same magnitudes handed over negated
+            exp["neg_negated"] = alt if flat else alt.unsqueeze(-1)
+    sg = f(k, 0) if red in ("sum", "mean") else None
+    signed = None if sg is None else (sg if flat else sg.unsqueeze(-1))
+    pos, neg = cv.read()
+    P, N = judge.judge(call, step, hname, pos, neg, exp["pos"], exp["neg"], signed, neg_negated=exp["neg_negated"])
+    # direction: positive plasticity moves the parameter so that the rate approaches the target
+    if hp.r1 == 1 and red in ("sum", "mean"):
+        want = torch.sign(f(k, 0))
+        want = want if flat else want.unsqueeze(-1)
+        net = P - N
+        chk.evaluations += 1
+        if not bool(((net * full(want, judge.shape)) >= -ATOL).all()):
+            chk.violation(judge.sig("direction", "rates"),
+                          judge.rep(call, step, hname, net=net, wanted_sign=full(want, judge.shape)))
+
+
+def check_homeostasis(chk, tables, kind, red, hists, do_bounds):
+    """One cell per trainer; the target comes with the call, or from the constructor default."""
     for hname, hist in hists:
         for r1 in CLASSES:
-            run = Run(kind, r1, 0, red)
-            chk.traces += 1
-            shape = tuple(run.param_value().shape)
-            judge = Judge(chk, kind, (r1, 0), red, shape)
-            # class of (target - rate) -> part, from the specified routing
-            place = {}
-            for c in CLASSES:
-                res = lookup(tables, kind, r1, 0, {"form": "rates", "d": [c] * EN})["res"]
-                place[c] = "pos" if res["pos"] else "neg" if res["neg"] else "none"
-            for step, (pre, post) in enumerate(hist):
-                run.step(pre, post)
-                k = run.homeo_k(r1)                       # (B, NO), documented formula
-                dcls = torch.sign(run.homeo_k(1) * (-1.0 if param == "delay" else 1.0))   # class of target - rate
-                exp = {}
-                for side in ("pos", "neg"):
-                    mask = torch.zeros_like(k)
-                    for c in CLASSES:
-                        if place[c] == side:
-                            mask = mask + (dcls == c).float()
-                    red_ = f(k.abs() * mask, 0)            # (NO,)
-                    exp[side] = red_ if param == "bias" else red_.unsqueeze(-1)
-                    if side == "neg":
-                        alt = f(-(k.abs() * mask), 0)      # the same magnitudes handed over negated
-                        exp["neg_negated"] = alt if param == "bias" else alt.unsqueeze(-1)
-                sg = f(k, 0) if red in ("sum", "mean") else None
-                signed = None if sg is None else (sg if param == "bias" else sg.unsqueeze(-1))
-                call = {"form": "rates"}
-                pos, neg = run.parts(call)
-                P, N = judge.judge(call, step, hname, pos, neg, exp["pos"], exp["neg"], signed,
-                                   neg_negated=exp["neg_negated"])
-                # direction: positive plasticity moves the parameter so that the rate approaches the target
-                if r1 == 1 and red in ("sum", "mean"):
-                    want = torch.sign(f(k, 0))
-                    want = want if param == "bias" else want.unsqueeze(-1)
-                    net = P - N
-                    chk.evaluations += 1
-                    if not bool(((net * full(want, shape)) >= -ATOL).all()):
-                        chk.violation(judge.sig("direction", "rates"),
-                                      judge.rep(call, step, hname, net=net, wanted_sign=full(want, shape)))
-            if do_bounds:
-                judge.bounds(run, {"form": "rates"}, hname)
+            for tg, target in (("call", None), ("none", 0.25)):
+                hp = HP(r1, 0, red, target=target)
+                run = Run(kind, r1, 0, red, hp=hp)
+                chk.traces += 1
+                shape = tuple(run.param_value().shape)
+                judge = Judge(chk, kind, (r1, 0), red, shape)
+                call = {"form": "rates", "tg": tg}
+                for step, (pre, post) in enumerate(hist):
+                    run.step(pre, post)
+                    run.clear()
+                    run.trainer(**call_kwargs(kind, call))
+                    homeo_judge(chk, tables, kind, (r1, 0), (INHERIT, INHERIT), run, call, step, hname, judge)
+                if do_bounds:
+                    judge.bounds(run, call, hname)
         chk.sample({"kind": "homeostasis-run", "trainer": kind, "history": hname, "reduction": red})
+
+
+def check_multi_homeostasis(chk, tables, kind, rng, steps, ncells):
+    """ONE LinearHomeostasis trainer, several cells with their own plasticity (sign and
+    magnitude), reduction, default target (a float, or a per-output tensor), connection kind and
+    spike history; forward() with and without a call-level target."""
+    from ..impl_split import CONN_SIZES
+    d = (rng.choice([-1, 1]), 0)
+    dflt = HP(d[0], 0, "sum", mag1=rng.choice([0.25, 0.5]), target=rng.choice([0.25, 0.5]))
+    cells, meta = [], []
+    for j in range(ncells):
+        conn = CONNS[(j + rng.randrange(len(CONNS))) % len(CONNS)]
+        n_out = CONN_SIZES[conn][1]
+        style = rng.choice(["all", "target", "none"]) if j else "all"
+        if style == "none":
+            eff, keys, o = dflt, [], (INHERIT, INHERIT)
+        elif style == "target":
+            eff = HP(d[0], 0, dflt.red, mag1=dflt.mag1, target=[[rng.choice([0.125, 0.25, 0.5, 0.75]) for _ in range(n_out)]])
+            keys, o = ("target",), (INHERIT, INHERIT)
+        else:
+            c = rng.choice([-1, 0, 1]) if j else -d[0]
+            eff = HP(c, 0, rng.choice(["sum", "mean", "amax"]), mag1=rng.choice([0.25, 1.0]),
+                     target=[[rng.choice([0.125, 0.25, 0.5, 0.75]) for _ in range(n_out)]])
+            keys, o = ("plasticity", "target", "batch_reduction"), (c, INHERIT)
+        cells.append((keys, eff, conn))
+        meta.append({"overrides": style, "o": list(o), "conn": conn, "effective": eff.describe()})
+    multi = MultiRun(kind, dflt, cells)
+    hists = [random_history(rng, steps, conn) for _, _, conn in cells]
+    chk.traces += 1
+    for step in range(steps):
+        for j, cv in enumerate(multi.cells):
+            cv.step(*hists[j][step])
+        for tg in ("none", "call"):
+            call = {"form": "rates", "tg": tg}
+            try:
+                multi.call(call)
+            except Exception as ex:
+                chk.violation({"clause": "cells-isolated", "site": site_of(kind), "kind": kind, "cells": ncells,
+                               "raised": type(ex).__name__},
+                              {"kind": kind, "trainer_defaults": dflt.describe(), "cells": meta, "step": step,
+                               "call": call, "error": str(ex)[:500]})
+                return
+            for j, cv in enumerate(multi.cells):
+                eff = cells[j][1]
+                judge = Judge(chk, kind, (eff.r1, 0), eff.red, tuple(cv.param_value().shape))
+                judge.extra = {"cells": ncells, "cell": j, "target": tg}
+                judge.context = {"trainer_defaults": dflt.describe(), "cells": meta}
+                homeo_judge(chk, tables, kind, d, tuple(meta[j]["o"]), cv, call, step, "multi-cell", judge)
+    chk.sample({"kind": "multi-cell-homeostasis-run", "trainer": kind, "defaults": dflt.describe(), "cells": meta})
 
 
 # ------------------------------------------------------------------ canary
@@ -489,7 +741,8 @@ def canary(chk: Check, tables):
     probe = Check(PID, chk.tier, chk.seed)
     probe.known = []
     swapped = dict(tables)
-    swapped[("STDP", 1, 1)] = tables[("STDP", -1, -1)]      # potentiation-only judged with the depression-only routing
+    # potentiation-only judged with the depression-only routing
+    swapped[("STDP", 1, 1, INHERIT, INHERIT)] = tables[("STDP", -1, -1, INHERIT, INHERIT)]
     rng = random.Random(chk.seed)
     check_match_kind(probe, swapped, "STDP", "sum", histories(rng, 4)[:1], [(1, 1)], False)
     if not any(v["signature"]["clause"] in ("pos-part-value", "neg-part-value") for v in probe.violations):
@@ -541,6 +794,13 @@ def run(tier: str, seed: int) -> int:
                 check_match_kind(chk, tables, kind, red, hists, cfgs, do_bounds=(red == "sum"))
                 if kind in CLAMP_KINDS:
                     check_probe_kernels(chk, tables, kind, red, rng, steps)
+        # one trainer, several cells with per-cell overrides / connection kinds / histories
+        for rep_ in range(3 if quick else 12):
+            ncells = 2 + (rep_ % 2)
+            if kind in HOMEO_KINDS:
+                check_multi_homeostasis(chk, tables, kind, rng, steps, ncells)
+            else:
+                check_multi(chk, tables, kind, rng, steps, ncells, red_default=["sum", "mean", "amax"][rep_ % 3])
     canary(chk, tables)
     if "not_constructible" in chk.extra:
         chk.extra["not_constructible"] = sorted(chk.extra["not_constructible"])
